@@ -318,6 +318,45 @@ func init() {
 					}
 					ellCase(c, n, mc, false)
 				}})
+			// larger repeat counts (multi-digit copy indices)
+			bigT := []func() *ref.Node{
+				func() *ref.Node { return ref.List(&ref.Node{Kind: ref.U1, Elems: []ref.Elem{{Var: "?"}}}, ref.Var("?"), ref.Ell("?")) },
+				func() *ref.Node { return ref.List(ref.List(ref.AsciiVar("?", 0, 2), ref.Ell("?")), ref.Ell("?"), ref.Var("?")) },
+				func() *ref.Node { return ref.List(ref.Uints(ref.U1, 1), ref.Ell("?")) },
+			}
+			bigN := []int{9, 10, 11, 12, 25, 100, 101}
+			sp = append(sp, h.Space{Name: "large-repeat-counts", Count: uint64(len(bigT) * len(bigN) * 2),
+				Describe: func(i uint64) interface{} {
+					d := unrank(i, len(bigT), len(bigN), 2)
+					n := bigT[d[0]]()
+					nameTemplate(n)
+					return fmt.Sprintf("%s with count %d on ellipsis #%d", ref.Print(n), bigN[d[1]], d[2])
+				},
+				Run: func(c *h.Ctx, i uint64) {
+					d := unrank(i, len(bigT), len(bigN), 2)
+					n := bigT[d[0]]()
+					nameTemplate(n)
+					ells := ellipsisNames(n)
+					counts := map[string]int{}
+					goMap := map[string]interface{}{}
+					if d[2] == 0 || len(ells) == 1 {
+						counts[ells[0]], goMap[ells[0]] = bigN[d[1]], bigN[d[1]]
+					} else {
+						counts[ells[0]], goMap[ells[0]] = 2, 2
+						counts[ells[1]], goMap[ells[1]] = bigN[d[1]], bigN[d[1]]
+					}
+					res, pan := tryFill(Build(n), goMap)
+					c.Ops(1)
+					in := fmt.Sprintf("%s filled with %v", strings.ReplaceAll(ref.Print(n), "\n", " "), counts)
+					if pan != "" {
+						c.Fail("ellipsis-fill-refused", in, pan)
+					} else if dd := matchesRef(res, refEllipsisFill(n, counts)); dd != "" {
+						c.Fail("expansion-differs", in, dd)
+					} else if dup := uniqueNames(res.Variables()); dup != "" {
+						c.Fail("duplicate-name-after-expansion", in, dup)
+					}
+					c.Case(0, true, "large-count")
+				}})
 			// ellipses and values in one call: values address the GENERATED names
 			sp = append(sp, h.Space{Name: "ellipsis-and-values-in-one-call", Count: 4 * 4,
 				Describe: func(i uint64) interface{} { return fmt.Sprintf("<L <U1 v0> v1 ...[0] <A v2>> with ...=%d and values for generated/original names, variant %d", i/4, i%4) },
